@@ -69,7 +69,9 @@ def _sld_case(keys, dens_kind='density', with_replace=False):
         oH, oD = _solvent_slds(data, lam)
         osub = _substituted(E, keys, counts, data, dens, lam, d)
         # v = 1: the compound with a fraction d of labile H replaced by D
+        snap = cm.Snapshot(compound=mol)
         s1 = nsf.D2O_sld(mol, volume_fraction=1, D2O_fraction=d, **kw)
+        snap.check(E, 'D2O_sld')
         E.eq('solute.sld_re', s1[0], osub['rho_re'])
         E.eq('solute.sld_im', s1[1], osub['rho_im'])
         # v = 0: the solvent mixture
